@@ -369,6 +369,30 @@ def run(ctx):
                         revd = False
             ctx.ob('T9.walk', wf_.fq, 'frames are collected innermost first and reversed before they are returned (most recent call last)',
                    revd, loc=wf_.loc)
+    # T25.modtable: the exception type is printed with its module prefixed unless the module is one the interpreter leaves out
+    # ("__main__" and "builtins", see traceback.TracebackException.format_exception_only).  Every table of unprefixed modules in
+    # tbutils (ExceptionInfo.from_exc_info, format_exception_only) contains both, and the sibling tables agree up to the Python 2
+    # names.
+    from sa.consteval import Folder as _F, Unknown as _U
+    tb_mod = prog.module('tbutils')
+    tables = []
+    for fi in tb_mod.all_funcs:
+        for n in ast.walk(fi.node):
+            if isinstance(n, ast.Compare) and len(n.ops) == 1 and isinstance(n.ops[0], (ast.In, ast.NotIn)):
+                try:
+                    tv = _F(tb_mod).fold(n.comparators[0])
+                except (_U, Exception):
+                    continue
+                if isinstance(tv, (tuple, list, set, frozenset)) and tv and all(isinstance(x, str) for x in tv) and 'builtins' in tv:
+                    tables.append((fi, n, frozenset(tv)))
+    if not tables:
+        ctx.unknown('T25.modtable', 'tbutils', 'no table of unprefixed exception modules (a membership test against names including '
+                    '"builtins") found', tb_mod.relpath)
+    LEGACY = {'__builtin__', 'exceptions'}
+    for fi, n, tv in tables:
+        ok = {'__main__', 'builtins'} <= tv and all((tv - LEGACY) == (t2 - LEGACY) for _, _, t2 in tables)
+        ctx.ob('T25.modtable', fi.fq, 'the modules left out of the printed exception type are the interpreter\'s ("__main__", "builtins"), '
+               'as in the sibling table', ok, loc=loc(fi, n), detail='table %s' % sorted(tv))
     # sibling constructors give the deferred line the frame's module globals (needed for loader-backed sources)
     cci = prog.cls('tbutils.Callpoint')
     for name, gl in (('from_tb', 'f_globals'), ('from_frame', 'f_globals')):
